@@ -139,7 +139,11 @@ def _twin(plan, kind):
         # last multiplication may be fused differently: allow 4 ulp
         ulp = np.finfo(fdt).eps
         with np.errstate(invalid='ignore'):
-          ok = bool(np.all((np.abs(want - y) <= 4 * ulp * np.abs(want)) |
+          sc_ = float(np.nanmax(np.abs(want))) if want.size else 0.0
+          # (elementwise 4 ulp, or 8 ulp of the tensor's magnitude where the
+          # momentum terms cancel)
+          ok = bool(np.all((np.abs(want - y) <= 4 * ulp * np.abs(want) +
+                            8 * ulp * sc_) |
                            (np.isnan(want) & np.isnan(y)) | (want == y)))
         tiny = np.any((np.abs(want) < 1e-30) & (want != 0)) if want.size else False
         if not ok and tiny:
